@@ -49,13 +49,15 @@ VARIABLES ver, fam, abbrev, hsInLog, pad, tickets, group, fault,   \* world (cho
           chSeen, canDec, hasDec, ccs, rcv,
           exported,             \* payload ids appended to application_traffic per direction (0 = garbage)
           crashed,
+          metaOut,              \* what is appended with -a (exp_meta): entries [d, k, id] in append order
           lost,                 \* a record was dropped from the capture (KF_LossResync taken)
           hist                  \* records in capture order (history, for behaviour export)
 
 world == <<ver, fam, abbrev, hsInLog, pad, tickets, group, fault>>
 envv  == <<pc, snd, nApp, nextId, sentApp, lost>>
 implv == <<chSeen, canDec, hasDec, ccs, rcv, exported, crashed>>
-vars  == <<world, envv, implv, hist>>
+implAll == <<implv, metaOut>>
+vars  == <<world, envv, implv, metaOut, hist>>
 
 (* ---------------- handshake scripts: sequences of [d, k] ---------------- *)
 \* k: CH SH HS (other plaintext handshake) CCS FIN (encrypted Finished, <= 1.2)
@@ -131,6 +133,18 @@ Handle(r) ==
                                   ELSE [exported EXCEPT ![r.d] = Append(@, IF out = "ok" THEN r.id ELSE 0)]
                    /\ UNCHANGED <<chSeen, canDec, hasDec, ccs, crashed>>
 
+(* -a : handle_tls_record appends the raw handshake / CCS / alert records, handle_handshake_finished the decrypted
+   Finished; application data is appended exactly as without the option *)
+M(d, k, id) == [d |-> d, k |-> k, id |-> id]
+MetaStep(r) ==
+  LET finDec == r.k \in {"CH", "SH", "HS", "FIN"} /\ (ccs["c"] \/ ccs["s"] \/ r.k \in {"HS", "FIN"}) /\ hasDec /\ ccs[r.d] /\ canDec
+                /\ ~(r.k \in {"CH", "SH"} /\ ~(ccs["c"] \/ ccs["s"]))
+      appOk == r.k = "APP" /\ Len(exported'[r.d]) > Len(exported[r.d])
+  IN metaOut' = metaOut
+       \o (IF finDec /\ Outcome(r, rcv[r.d]) # "raise" THEN <<M(r.d, "finplain", r.id)>> ELSE <<>>)
+       \o (IF r.k \in {"CH", "SH", "HS", "FIN", "CCS"} THEN <<M(r.d, "raw", r.id)>> ELSE <<>>)
+       \o (IF appOk THEN <<M(r.d, "app", exported'[r.d][Len(exported'[r.d])])>> ELSE <<>>)
+
 (* ---------------- environment steps (produce + capture + handle) ---------------- *)
 Protected(k) == k \in {"FIN", "APP", "H13", "F13", "T13"}
 Rec(d, k, len) == [d |-> d, k |-> k, id |-> nextId, len |-> len, pad |-> (pad /\ k = "APP"),
@@ -142,8 +156,8 @@ Emitted(r, drop) ==
             THEN [snd EXCEPT ![r.d] = IF r.k = "F13" THEN Fresh("app") ELSE SndAdvance(@, r.id, r.len)]
             ELSE IF r.k = "SH" THEN [x \in Dir |-> Fresh(IF ver = "TLS13" THEN "hs" ELSE "app")]
             ELSE snd
-  /\ IF drop THEN UNCHANGED implv /\ hist' = Append(hist, [r EXCEPT !.k = "LOST:" \o r.k])
-     ELSE Handle(r) /\ hist' = Append(hist, r)
+  /\ IF drop THEN UNCHANGED implAll /\ hist' = Append(hist, [r EXCEPT !.k = "LOST:" \o r.k])
+     ELSE Handle(r) /\ MetaStep(r) /\ hist' = Append(hist, r)
 
 HsStep == /\ pc <= Len(Script)
           /\ LET r == Rec(Script[pc].d, Script[pc].k, 1) IN Emitted(r, FALSE)
@@ -178,7 +192,7 @@ Init == /\ ver \in Vers /\ fam \in Fams /\ ValidPair(ver, fam)
         /\ nApp = 0 /\ nextId = 1 /\ sentApp = [x \in Dir |-> <<>>] /\ lost = FALSE
         /\ chSeen = FALSE /\ canDec = FALSE /\ hasDec = FALSE /\ ccs = [x \in Dir |-> FALSE]
         /\ rcv = [x \in Dir |-> Fresh("none")] /\ exported = [x \in Dir |-> <<>>] /\ crashed = FALSE
-        /\ hist = <<>>
+        /\ hist = <<>> /\ metaOut = <<>>
 Spec == Init /\ [][Next]_vars
 
 (* ---------------- contract ---------------- *)
@@ -198,6 +212,13 @@ PrefixUnderLoss == \A d \in Dir : IsPrefix(exported[d], sentApp[d])
 ClosedGate == (fault \in {"nokeys", "nosuite", "midstart"}) => \A d \in Dir : exported[d] = <<>>
 \* C08
 ExportMonotone == [][\A d \in Dir : IsPrefix(exported[d], exported'[d])]_vars
+
+\* C13: with -a the application data appended is exactly the application data appended without it, in the same order
+AppOf(d) == LET sel == SelectSeq(metaOut, LAMBDA m : m.d = d /\ m.k = "app") IN [i \in 1..Len(sel) |-> sel[i].id]
+MetaOnlyAdds == \A d \in Dir : AppOf(d) = exported[d]
+\* ... and ClientHello / ServerHello records are present verbatim
+HellosExported == \A i \in 1..Len(hist) : hist[i].k \in {"CH", "SH"} =>
+                    \E j \in 1..Len(metaOut) : metaOut[j].k = "raw" /\ metaOut[j].id = hist[i].id
 
 View == <<world, envv, implv>>
 
